@@ -222,9 +222,13 @@ class Arc2D(object):
         """
         if self.is_circle:  # start and end coincide: three points do not define it
             return Arc2D(self.c.reflect(normal, origin), self.r)
-        return Arc2D.from_start_mid_end(self.p2.reflect(normal, origin),
-                                        self.midpoint.reflect(normal, origin),
-                                        self.p1.reflect(normal, origin))
+        # reflect the center and measure the angles of the mirrored end points about it
+        # (rebuilding from three points loses precision far from the origin)
+        c = self.c.reflect(normal, origin)
+        p1, p2 = self.p2.reflect(normal, origin), self.p1.reflect(normal, origin)
+        a1 = Vector2D(1, 0).angle_counterclockwise(Vector2D(p1.x - c.x, p1.y - c.y))
+        a2 = Vector2D(1, 0).angle_counterclockwise(Vector2D(p2.x - c.x, p2.y - c.y))
+        return Arc2D(c, self.r, a1, a2)
 
     def scale(self, factor, origin=None):
         """Scale a arc by a factor from an origin point.
